@@ -38,6 +38,8 @@ ASSUMPTIONS = [
     "NumPy/SciPy linear algebra trusted; physical constants (h, c, k, m_u) are written out in the harness (CODATA 2018)",
     "Franck-Condon oracle: grid integration for 1 and 2 modes; larger systems are compared at the level of the "
     "Gaussian state implied by x' = J x + delta",
+    "photon-number-resolved samples containing a count >= 5 (the default truncation of The Walrus' sampler, a third-party "
+    "approximation) are saturated and not judged for conservation",
     "sampling functions are checked for conservation laws and shapes only (no distributional verdict here; "
     "distributions of samplers are C06's subject)",
 ]
@@ -47,6 +49,8 @@ REQUIRED_MONITORS = ["embed.jacobian", "vgbs.A", "A_to_cov", "vgbs.moments", "pr
                      "prob_mc.bounds", "gbs_params", "duschinsky", "franck_condon", "vibronic.state",
                      "TimeEvolution", "dynamics.conservation", "dynamics.premeasure-state", "vibronic.sample-state",
                      "marginals"]
+
+WALRUS_CUTOFF = 5  # default Fock truncation of thewalrus.samples.hafnian_sample_state (counts >= 5 are saturated)
 
 # CODATA 2018 (exact SI values where defined)
 H = 6.62607015e-34
@@ -551,7 +555,7 @@ def run_vgbs(case, rep, V):
             out = np.asarray(out)
             if out.min() < 0 or (thr and out.max() > 1):
                 V("VGBS.generate_samples", "sample-domain", "sample values outside the detector's range: %s" % out.tolist())
-            if not thr and np.any(out.sum(axis=1) % 2 == 1):
+            if not thr and np.any((out.sum(axis=1) % 2 == 1) & (out.max(axis=1) < WALRUS_CUTOFF)):
                 V("VGBS.generate_samples", "odd-photon-number", "a lossless pure GBS state produced an odd total: %s" % out.tolist())
 
 
@@ -949,6 +953,11 @@ def run_dynamics(case, rep, V):
         V("sample_tmsv", "sample-shape", "shape of samples %s" % (np.shape(s),))
     else:
         for x in s:
+            if max(x) >= WALRUS_CUTOFF:
+                # The Walrus' chain-rule sampler lumps ">= cutoff" into its last bin: a saturated count is only a
+                # lower bound, so conservation cannot be judged on this sample
+                rep.observe("saturated-sample(not judged)")
+                continue
             if loss == 0 and sum(x[:n]) != sum(x[n:]):
                 V("sample_tmsv", "pair-number-not-conserved", "sample %s: %d photons in the evolved half, %d in the "
                   "reference half" % (x, sum(x[:n]), sum(x[n:])))
